@@ -185,7 +185,7 @@ class C12Combine(Scenario):
 SPEC = PropSpec(
     prop="C12",
     scenarios=[(1, C12Combine)],
-    runs={"quick": 8000, "thorough": 300000},
+    runs={"quick": 16000, "thorough": 400000},
     rule=("one run = two operands a, b and a third structure c of the same geometry and hash strategy (Bloom with "
           "in-memory or on-disk operands in either position, counting Bloom, count-min / mean / mean-min); two seeded "
           "streams of add (and legitimate remove) go to a and b, c receives both; at seeded points and at the end "
